@@ -38,7 +38,7 @@ type Config struct {
 func (c Config) String() string { b, _ := json.Marshal(c); return string(b) }
 
 type opDef struct {
-	kind int // 0 inbound E, 1 outbound E, 2 X(slot), 3 tick, 4 setLoad, 5 setCpu
+	kind int // 0 inbound E, 1 outbound E, 2 X(slot), 3 tick, 4 setLoad, 5 setCpu, 6 inbound E with batch count 3
 	slot int
 	tick int64
 	val  float64
@@ -50,6 +50,8 @@ func (o opDef) String() string {
 		return "E(inbound)"
 	case 1:
 		return "E(outbound)"
+	case 6:
+		return "E(inbound,batch 3)"
 	case 2:
 		return fmt.Sprintf("X(%d)", o.slot)
 	case 3:
@@ -67,6 +69,7 @@ type liveE struct {
 	e       *base.SentinelEntry
 	inbound bool
 	start   int64
+	batch   int64
 }
 
 type scen struct {
@@ -88,7 +91,10 @@ func (s *scen) OpName(i int) string { return s.ops[i].String() }
 func (s *scen) Enabled(i int) bool {
 	o := s.ops[i]
 	switch o.kind {
-	case 0, 1:
+	case 0, 1, 6:
+		if o.kind == 6 && !s.hasQPSRule() {
+			return false // batched requests only where the batch could matter: inbound QPS rules
+		}
 		for _, l := range s.live {
 			if l == nil {
 				return true
@@ -99,6 +105,15 @@ func (s *scen) Enabled(i int) bool {
 		return s.live[o.slot] != nil
 	}
 	return true
+}
+
+func (s *scen) hasQPSRule() bool {
+	for _, r := range s.cfg.Rules {
+		if system.MetricType(r.Metric) == system.InboundQPS {
+			return true
+		}
+	}
+	return false
 }
 
 func (s *scen) Reset() {
@@ -191,12 +206,16 @@ func (s *scen) Apply(i int) (string, string) {
 		l.e.Exit()
 		if l.inbound {
 			s.infl--
-			s.in.Add(s.now, window.EvComplete, 1)
+			s.in.Add(s.now, window.EvComplete, l.batch)
 			s.in.Add(s.now, window.EvRt, s.now-l.start)
 		}
 		return "x", s.gauge(o)
 	}
-	inbound := o.kind == 0
+	inbound := o.kind == 0 || o.kind == 6
+	batch := int64(1)
+	if o.kind == 6 {
+		batch = 3 // the decision does not depend on the request's own batch count
+	}
 	wantBlock, which := false, []int(nil)
 	if inbound {
 		wantBlock, which = s.violated()
@@ -206,6 +225,9 @@ func (s *scen) Apply(i int) (string, string) {
 	if inbound {
 		res = "in"
 		opts = append(opts, sentinel.WithTrafficType(base.Inbound))
+	}
+	if batch != 1 {
+		opts = append(opts, sentinel.WithBatchCount(uint32(batch)))
 	}
 	e, blk := sentinel.Entry(res, opts...)
 	obs := o.String() + "=P"
@@ -240,13 +262,13 @@ func (s *scen) Apply(i int) (string, string) {
 	}
 	for k := range s.live {
 		if s.live[k] == nil {
-			s.live[k] = &liveE{e, inbound, s.now}
+			s.live[k] = &liveE{e, inbound, s.now, batch}
 			break
 		}
 	}
 	if inbound {
 		s.infl++
-		s.in.Add(s.now, window.EvPass, 1)
+		s.in.Add(s.now, window.EvPass, batch)
 	}
 	return obs, s.gauge(o)
 }
@@ -280,7 +302,7 @@ func (s *scen) Key() string {
 			if age > 20 {
 				age = 21
 			}
-			fmt.Fprintf(&b, "L%v%d", l.inbound, age)
+			fmt.Fprintf(&b, "L%v%d/%d", l.inbound, age, l.batch)
 		}
 	}
 	bk, _ := stat.InboundNode().VerifArr().VerifDump()
@@ -293,7 +315,7 @@ func (s *scen) Key() string {
 }
 
 func mkOps() []opDef {
-	ops := []opDef{{kind: 0}, {kind: 1}}
+	ops := []opDef{{kind: 0}, {kind: 1}, {kind: 6}}
 	for k := 0; k < maxLive; k++ {
 		ops = append(ops, opDef{kind: 2, slot: k})
 	}
